@@ -50,11 +50,16 @@ func (w *failAfter) Write(p []byte) (int, error) {
 type failOnce struct {
 	k, n   int
 	failed bool
+	full   bool // report the failure together with the FULL byte count (n == len(p), err != nil: allowed by io.Writer, e.g. a sync after the write failing)
 }
 
 func (w *failOnce) Write(p []byte) (int, error) {
 	if !w.failed && w.n+len(p) > w.k {
 		w.failed = true
+		if w.full {
+			w.n += len(p)
+			return len(p), writeErrFor(w.k)
+		}
 		room := w.k - w.n
 		w.n += room
 		return room, writeErrFor(w.k)
@@ -83,7 +88,16 @@ func (w *closeAt) Write(p []byte) (int, error) {
 type ftTerm struct{ f, t string }
 
 func (x ftTerm) Field() string { return x.f }
-func (x ftTerm) Term() []byte  { return []byte(x.t) }
+
+// Term hands the empty term over as a nil slice (a nil []byte IS the empty
+// byte string) for field names of even length and as an empty non-nil slice
+// for the others; every other term as a fresh slice.
+func (x ftTerm) Term() []byte {
+	if x.t == "" && len(x.f)%2 == 0 {
+		return nil
+	}
+	return []byte(x.t)
+}
 
 // cancelledMerge merges the segment with one document dropped (document-by-
 // document stored path) and closes the close channel when the first bytes
@@ -134,6 +148,43 @@ func keptWriterMerges(segs []segment.Segment, drops []*roaring.Bitmap, good []by
 		}
 		if other.Len()-before != len(good) || !bytes.Equal(other.Bytes()[before:], good) {
 			return fmt.Errorf("a merge into a plain buffer after merges into a kept bufio.Writer wrote %d bytes, expected %d", other.Len()-before, len(good))
+		}
+	}
+	return nil
+}
+
+// keptWriterPersists is keptWriterMerges for Segment.WriteTo: three persists
+// into ONE bufio.Writer the caller keeps, with persists into another
+// destination in between.
+func keptWriterPersists(seg segment.Segment, good []byte) error {
+	var sink, other bytes.Buffer
+	own := bufio.NewWriterSize(&sink, 1<<16)
+	runtime.GC()
+	runtime.GC()
+	for round := 0; round < 3; round++ {
+		var n int64
+		err := safely("Segment.WriteTo(kept bufio destination)", func() error {
+			var e error
+			n, e = seg.WriteTo(own, nil)
+			return e
+		})
+		if err == nil {
+			err = own.Flush()
+		}
+		if err != nil {
+			return fmt.Errorf("persist #%d into the caller's kept bufio.Writer: %v", round, err)
+		}
+		if n != int64(len(good)) || sink.Len() != (round+1)*len(good) || !bytes.Equal(sink.Bytes()[round*len(good):], good) {
+			return fmt.Errorf("persist #%d into the caller's kept bufio.Writer returned %d; its sink now holds %d bytes, expected %d (%d files of %d bytes); another destination used in between holds %d bytes",
+				round, n, sink.Len(), (round+1)*len(good), round+1, len(good), other.Len())
+		}
+		before := other.Len()
+		n2, err := seg.WriteTo(&other, nil)
+		if err != nil {
+			return err
+		}
+		if other.Len()-before != len(good) || n2 != int64(len(good)) || !bytes.Equal(other.Bytes()[before:], good) {
+			return fmt.Errorf("a persist into a plain buffer that already holds %d bytes, after persists into a kept bufio.Writer, returned %d and appended %d bytes, expected %d", before, n2, other.Len()-before, len(good))
 		}
 	}
 	return nil
